@@ -212,7 +212,7 @@ class TdmsSegment(object):
         return metadata
 
     def raw_data_index(self, obj):
-        if hasattr(obj, 'data'):
+        if hasattr(obj, 'data') and obj.data_type != Void:
             data_type = Int32(obj.data_type.enum_value)
             dimension = Uint32(1)
             num_values = Uint64(len(obj.data))
@@ -442,6 +442,9 @@ def write_string_values(file, strings):
 
 
 def object_data_size(data_type, data_values):
+    if len(data_values) == 0:
+        return 0
+
     if data_type == String:
         # For string data, the total size is 8 bytes per string for the
         # offsets to the start of each string, plus the length of each string.
